@@ -1,6 +1,864 @@
-/- C18 - property theorems (stub: not built yet) -/
+/-
+C18 - The signer never returns plugin output it has not checked against the request.
+Property theorems; the model is in `Model/C18.lean`, the tables in `Generated/C18.lean`.
+-/
 import NotationModel.Model.C18
+set_option linter.unusedSimpArgs false
+set_option linter.unusedVariables false
 
 namespace NotationModel.C18
+
+/-! ### facts regenerated from the Go source -/
+
+theorem assertion_checked : Facts.c18AssertionChecked = true := by decide
+theorem target_key_fact : Facts.c18TargetKey = "targetArtifact" := by decide
+theorem payload_fields_fact : Facts.c18PayloadFields = ["targetArtifact"] := by decide
+theorem payload_type_fact :
+    Facts.c18MediaTypePayloadV1 = "application/vnd.cncf.notary.payload.v1+json" := by decide
+/-- the keys the scan treats as known are exactly the JSON names of `ocispec.Descriptor` -/
+theorem known_keys_fact :
+    Facts.c18KnownDescriptorKeys.all descFields.contains = true ∧
+    descFields.all Facts.c18KnownDescriptorKeys.contains = true := by decide
+/-- … as a function: the code's notion of "known" is the specification's -/
+theorem isKnownKey_eq (k : String) : isKnownKey k = descFields.contains k := by
+  rw [Bool.eq_iff_iff]
+  constructor
+  · intro h
+    exact (List.all_eq_true.1 known_keys_fact.1) k (by simpa [isKnownKey] using h)
+  · intro h
+    have := (List.all_eq_true.1 known_keys_fact.2) k (by simpa using h)
+    simpa [isKnownKey] using this
+
+/-- what notation itself writes (SanitizeTargetArtifact) is within the known keys -/
+theorem sanitized_fields_fact :
+    Facts.c18SanitizedFields = ["MediaType", "Digest", "Size", "Annotations"] := by decide
+
+/-- generateSignatureEnvelope rejects duplicate member names, and does so after the struct decode
+and before the descriptor comparison and the unknown-field scan -/
+theorem duplicate_check_fact :
+    Facts.c18DuplicateKeysRejected = true ∧
+    Facts.c18EnvelopeChecks.idxOf "json.Unmarshal" < Facts.c18EnvelopeChecks.idxOf "findDuplicateKey" ∧
+    Facts.c18EnvelopeChecks.idxOf "findDuplicateKey" <
+      Facts.c18EnvelopeChecks.idxOf "isPayloadDescriptorValid" ∧
+    Facts.c18EnvelopeChecks.idxOf "findDuplicateKey" <
+      Facts.c18EnvelopeChecks.idxOf "areUnknownAttributesAdded" ∧
+    Facts.c18EnvelopeChecks.idxOf "sigEnv.Verify" < Facts.c18EnvelopeChecks.idxOf "json.Unmarshal" ∧
+    Facts.c18EnvelopeChecks.idxOf "areUnknownAttributesAdded" < Facts.c18EnvelopeChecks.length ∧
+    Facts.c18EnvelopeChecks.idxOf "isPayloadDescriptorValid" < Facts.c18EnvelopeChecks.length := by
+  decide
+
+/-! ### codec lemmas over the regenerated tables -/
+
+theorem lookup_mem {α β : Type} [BEq α] [LawfulBEq α] :
+    ∀ (l : List (α × β)) (a : α) (b : β), l.lookup a = some b → (a, b) ∈ l := by
+  intro l
+  induction l with
+  | nil => intro a b h; simp [List.lookup] at h
+  | cons p r ih =>
+    intro a b h
+    obtain ⟨k, v⟩ := p
+    simp only [List.lookup] at h
+    by_cases hk : a == k
+    · simp [hk] at h
+      have : a = k := by simpa using hk
+      subst this; subst h; simp
+    · simp [hk] at h
+      exact List.mem_cons_of_mem _ (ih a b h)
+
+/-- **codec**: `DecodeKeySpec (EncodeKeySpec k) = k` for all six key specs -/
+theorem decode_encode_keySpec (k : KS) :
+    (encodeKeySpec k.spec).bind decodeKeySpec = some k.spec := by
+  cases k <;> decide
+
+/-- **codec**: whatever `DecodeKeySpec` accepts, `EncodeKeySpec` maps back to the same text -/
+theorem encode_decode_keySpec (s : String) (ks : Spec) (h : decodeKeySpec s = some ks) :
+    encodeKeySpec ks = some s := by
+  have hall : ∀ p ∈ Facts.c18DecodeKeySpec, encodeKeySpec p.2 = some p.1 := by decide
+  exact hall (s, ks) (lookup_mem _ _ _ h)
+
+/-- **codec**: only the six supported key specs are decodable -/
+theorem decodeKeySpec_range (s : String) (ks : Spec) (h : decodeKeySpec s = some ks) :
+    ∃ k : KS, ks = k.spec := by
+  have hall : ∀ p ∈ Facts.c18DecodeKeySpec,
+      p.2 = KS.rsa2048.spec ∨ p.2 = KS.rsa3072.spec ∨ p.2 = KS.rsa4096.spec ∨
+      p.2 = KS.ec256.spec ∨ p.2 = KS.ec384.spec ∨ p.2 = KS.ec521.spec := by decide
+  rcases hall (s, ks) (lookup_mem _ _ _ h) with h | h | h | h | h | h <;> exact ⟨_, h⟩
+
+/-- **codec**: signing algorithm ↔ key spec: the algorithm of every key spec survives the wire
+encoding, and no two key specs share an algorithm -/
+theorem sigAlg_roundtrip (k : KS) :
+    ∃ a, sigAlgOf k.spec = some a ∧ (encodeSigAlg a).bind decodeSigAlg = some a := by
+  cases k <;> exact ⟨_, rfl, by decide⟩
+
+theorem sigAlgOf_injective (k k' : KS) (h : sigAlgOf k.spec = sigAlgOf k'.spec) : k = k' := by
+  cases k <;> cases k' <;> first | rfl | (exact absurd h (by decide))
+
+/-- **codec**: the hash `HashAlgorithmFromKeySpec` requests from the plugin is the hash of the
+key spec's signature algorithm -/
+theorem hash_bound_to_keySpec (k : KS) :
+    ∃ a h, sigAlgOf k.spec = some a ∧ hashOfAlg a = some h ∧ hashFromKeySpec k.spec = some h.2 := by
+  cases k <;> exact ⟨_, _, rfl, rfl, by decide⟩
+
+/-- SignBlob always finds a digest algorithm for a decodable key spec -/
+theorem blobDigestAlg_total (k : KS) : (blobDigestAlg k.spec).isSome = true := by
+  cases k <;> decide
+
+theorem encode_hash_total (k : KS) :
+    (encodeKeySpec k.spec).isSome = true ∧ (hashFromKeySpec k.spec).isSome = true := by
+  cases k <;> decide
+
+/-! ### member lookups -/
+
+theorem lookupLast_none_of_not_mem (k : String) :
+    ∀ (m : Members), (keysOf m).contains k = false → lookupLast k m = none := by
+  intro m
+  induction m with
+  | nil => intro _; rfl
+  | cons p r ih =>
+    intro h
+    obtain ⟨k', v⟩ := p
+    simp only [keysOf, List.map_cons, List.contains_cons, Bool.or_eq_false_iff] at h
+    have hr := ih (by simpa [keysOf] using h.2)
+    have hne : (k' == k) = false := by
+      have : k ≠ k' := by simpa using h.1
+      simpa using fun e => this e.symm
+    simp [lookupLast, hr, hne]
+
+theorem lookupLast_cons_self (k : String) (v : JVal) (r : Members)
+    (h : (keysOf r).contains k = false) : lookupLast k ((k, v) :: r) = some v := by
+  simp [lookupLast, lookupLast_none_of_not_mem k r h]
+
+theorem lookupLast_cons_ne (k k' : String) (v : JVal) (r : Members) (h : k' ≠ k) :
+    lookupLast k ((k', v) :: r) = lookupLast k r := by
+  have hne : (k' == k) = false := by simpa using h
+  cases hl : lookupLast k r <;> simp [lookupLast, hl, hne]
+
+/-- without duplicate member names it does not matter which member a reader takes -/
+theorem lookupFirst_eq_lookupLast (k : String) :
+    ∀ (m : Members), nodupB (keysOf m) = true → lookupFirst k m = lookupLast k m := by
+  intro m
+  induction m with
+  | nil => intro _; rfl
+  | cons p r ih =>
+    intro h
+    obtain ⟨k', v⟩ := p
+    simp only [keysOf, List.map_cons, nodupB, Bool.and_eq_true, Bool.not_eq_true'] at h
+    have hr := ih (by simpa [keysOf] using h.2)
+    by_cases hk : k = k'
+    · subst hk
+      rw [lookupLast_cons_self k v r (by simpa [keysOf] using h.1)]
+      simp [lookupFirst, List.lookup]
+    · rw [lookupLast_cons_ne k k' v r (fun e => hk e.symm), ← hr]
+      have : (k == k') = false := by simpa using hk
+      simp [lookupFirst, List.lookup, this]
+
+/-! ### the Go struct decoder on a descriptor object with known, distinct member names -/
+
+def fieldStr (cur : String) : Option JVal → Option String
+  | none => some cur
+  | some v => decStr cur v
+
+def fieldInt (cur : Int) : Option JVal → Option Int
+  | none => some cur
+  | some v => decInt64 cur v
+
+def fieldAnn (cur : List (String × String)) : Option JVal → Option (List (String × String))
+  | none => some cur
+  | some v => decAnnotations cur v
+
+theorem known_cases (k : String) (hk : isKnownKey k = true) :
+    k = "mediaType" ∨ k = "digest" ∨ k = "size" ∨ k = "urls" ∨ k = "annotations" ∨ k = "data" ∨
+    k = "platform" ∨ k = "artifactType" := by
+  simpa [isKnownKey, Facts.c18KnownDescriptorKeys] using hk
+
+/-- a member with a known (exactly spelled) name touches its own field only -/
+theorem decDescField_spec (cur c : GoDesc) (k : String) (v : JVal) (hk : isKnownKey k = true)
+    (h : decDescField cur k v = some c) :
+    (if k = "mediaType" then decStr cur.mediaType v = some c.mediaType else c.mediaType = cur.mediaType) ∧
+    (if k = "digest" then decStr cur.digest v = some c.digest else c.digest = cur.digest) ∧
+    (if k = "size" then decInt64 cur.size v = some c.size else c.size = cur.size) ∧
+    (if k = "annotations" then decAnnotations cur.annotations v = some c.annotations
+      else c.annotations = cur.annotations) := by
+  rcases known_cases k hk with h' | h' | h' | h' | h' | h' | h' | h' <;> subst h' <;>
+    simp [decDescField, matchField, descFields] at h
+  · obtain ⟨s, hs, rfl⟩ := h; simp [hs]
+  · obtain ⟨s, hs, rfl⟩ := h; simp [hs]
+  · obtain ⟨s, hs, rfl⟩ := h; simp [hs]
+  · obtain ⟨_, rfl⟩ := h; simp
+  · obtain ⟨s, hs, rfl⟩ := h; simp [hs]
+  · obtain ⟨_, rfl⟩ := h; simp
+  · obtain ⟨_, rfl⟩ := h; simp
+  · obtain ⟨_, rfl⟩ := h; simp
+
+theorem field_step {α : Type} (fld : α → Option JVal → Option α) (dec : α → JVal → Option α)
+    (hnone : ∀ a, fld a none = some a) (hsome : ∀ a v, fld a (some v) = dec a v)
+    (f k : String) (v : JVal) (rest : Members) (curf cf rf : α)
+    (hnot : (keysOf rest).contains k = false)
+    (hA : if k = f then dec curf v = some cf else cf = curf)
+    (hIH : fld cf (lookupLast f rest) = some rf) :
+    fld curf (lookupLast f ((k, v) :: rest)) = some rf := by
+  by_cases hkf : k = f
+  · subst hkf
+    simp only [if_true] at hA
+    rw [lookupLast_cons_self k v rest hnot, hsome, hA]
+    rw [lookupLast_none_of_not_mem k rest hnot, hnone] at hIH
+    exact hIH
+  · simp only [hkf, if_false] at hA
+    rw [lookupLast_cons_ne f k v rest hkf, ← hA]
+    exact hIH
+
+theorem decDescFields_spec : ∀ (d : Members) (cur r : GoDesc),
+    (keysOf d).all isKnownKey = true → nodupB (keysOf d) = true → decDescFields cur d = some r →
+    fieldStr cur.mediaType (lookupLast "mediaType" d) = some r.mediaType ∧
+    fieldStr cur.digest (lookupLast "digest" d) = some r.digest ∧
+    fieldInt cur.size (lookupLast "size" d) = some r.size ∧
+    fieldAnn cur.annotations (lookupLast "annotations" d) = some r.annotations := by
+  intro d
+  induction d with
+  | nil =>
+    intro cur r _ _ h
+    simp [decDescFields] at h
+    subst h
+    simp [lookupLast, fieldStr, fieldInt, fieldAnn]
+  | cons p rest ih =>
+    intro cur r hk hn h
+    obtain ⟨k, v⟩ := p
+    simp only [keysOf, List.map_cons, List.all_cons, Bool.and_eq_true, nodupB, Bool.not_eq_true'] at hk hn
+    simp only [decDescFields] at h
+    cases hc : decDescField cur k v with
+    | none => simp [hc] at h
+    | some c =>
+      simp only [hc] at h
+      obtain ⟨i1, i2, i3, i4⟩ := ih c r (by simpa [keysOf] using hk.2) (by simpa [keysOf] using hn.2) h
+      obtain ⟨a1, a2, a3, a4⟩ := decDescField_spec cur c k v hk.1 hc
+      have hnot : (keysOf rest).contains k = false := by simpa [keysOf] using hn.1
+      exact ⟨field_step fieldStr decStr (fun _ => rfl) (fun _ _ => rfl) _ k v rest _ _ _ hnot a1 i1,
+             field_step fieldStr decStr (fun _ => rfl) (fun _ _ => rfl) _ k v rest _ _ _ hnot a2 i2,
+             field_step fieldInt decInt64 (fun _ => rfl) (fun _ _ => rfl) _ k v rest _ _ _ hnot a3 i3,
+             field_step fieldAnn decAnnotations (fun _ => rfl) (fun _ _ => rfl) _ k v rest _ _ _ hnot a4 i4⟩
+
+theorem fieldStr_zero (o : Option JVal) : fieldStr "" o = exactStr o := by
+  cases o with
+  | none => rfl
+  | some v => cases v <;> rfl
+
+theorem fieldInt_zero (o : Option JVal) (n : Int) (h : fieldInt 0 o = some n) : exactInt o = some n := by
+  cases o with
+  | none => simpa [fieldInt, exactInt] using h
+  | some v =>
+    cases v <;> simp [fieldInt, decInt64, exactInt] at h ⊢
+    · exact h
+    · exact h.2
+
+theorem fieldAnn_zero (o : Option JVal) : fieldAnn [] o = exactAnn o := by
+  cases o with
+  | none => rfl
+  | some v => cases v <;> rfl
+
+/-- the exact-key reader of a descriptor object agrees with the Go struct decoder when the
+member names are known and distinct -/
+theorem exactDesc_agrees (d : Members) (r : GoDesc)
+    (hk : (keysOf d).all isKnownKey = true) (hn : nodupB (keysOf d) = true)
+    (h : decDescFields {} d = some r) : exactDescBy lookupLast d = some r := by
+  obtain ⟨h1, h2, h3, h4⟩ := decDescFields_spec d {} r hk hn h
+  rw [fieldStr_zero] at h1 h2
+  rw [fieldAnn_zero] at h4
+  have h3' := fieldInt_zero _ _ h3
+  simp [exactDescBy, h1, h2, h3', h4]
+
+/-! ### the whole payload -/
+
+theorem top_shape (kvs : Members) (ht : (keysOf kvs).all (· == "targetArtifact") = true)
+    (hn : nodupB (keysOf kvs) = true) : kvs = [] ∨ ∃ v, kvs = [("targetArtifact", v)] := by
+  cases kvs with
+  | nil => exact Or.inl rfl
+  | cons p rest =>
+    obtain ⟨k, v⟩ := p
+    simp only [keysOf, List.map_cons, List.all_cons, Bool.and_eq_true, beq_iff_eq] at ht
+    obtain ⟨hk, hrest⟩ := ht
+    subst hk
+    cases rest with
+    | nil => exact Or.inr ⟨v, rfl⟩
+    | cons q r2 =>
+      obtain ⟨k2, v2⟩ := q
+      simp only [List.map_cons, List.all_cons, Bool.and_eq_true, beq_iff_eq] at hrest
+      obtain ⟨hk2, _⟩ := hrest
+      subst hk2
+      simp [keysOf, nodupB] at hn
+
+theorem exactDescBy_first (d : Members) (hn : nodupB (keysOf d) = true) :
+    exactDescBy lookupFirst d = exactDescBy lookupLast d := by
+  simp [exactDescBy, lookupFirst_eq_lookupLast _ d hn]
+
+/-- **every reader sees the same descriptor**: when the payload carries only the exactly spelled
+key `targetArtifact`, its object only known descriptor keys, and no member name is duplicated,
+then a last-wins exact-key reader and a first-wins exact-key reader read exactly what the Go
+struct decoder (exact name, else case-insensitive, merging) reads -/
+theorem views_agree (p : JVal) (r : GoDesc) (ht : topKeysExact p = true)
+    (hk : descKeysKnown p = true) (hd : hasDup p = false) (h : goDecodePayload p = some r) :
+    exactView p = some r ∧ firstView p = some r := by
+  cases p with
+  | null =>
+    simp [goDecodePayload] at h
+    subst h
+    exact ⟨rfl, rfl⟩
+  | bool b => simp [goDecodePayload] at h
+  | num n => simp [goDecodePayload] at h
+  | str s => simp [goDecodePayload] at h
+  | arr xs => simp [goDecodePayload] at h
+  | obj kvs =>
+    simp only [hasDup, Bool.or_eq_false_iff, Bool.not_eq_false'] at hd
+    obtain ⟨hn, hd2⟩ := hd
+    rcases top_shape kvs (by simpa [topKeysExact] using ht) hn with rfl | ⟨v, rfl⟩
+    · simp [goDecodePayload, decPayloadFields] at h
+      subst h
+      exact ⟨rfl, rfl⟩
+    · have hl : lookupLast "targetArtifact" [("targetArtifact", v)] = some v := by
+        simp [lookupLast]
+      have hf : lookupFirst "targetArtifact" [("targetArtifact", v)] = some v := by
+        simp [lookupFirst, List.lookup]
+      simp only [descKeysKnown, hl] at hk
+      simp only [hl] at hd2
+      cases v with
+      | obj d =>
+        simp only at hk hd2
+        have hnd : nodupB (keysOf d) = true := by simpa using hd2
+        simp [goDecodePayload, decPayloadFields, matchField, Facts.c18PayloadFields, decDesc] at h
+        cases hc : decDescFields {} d with
+        | none => simp [hc] at h
+        | some c =>
+          simp [hc] at h
+          subst h
+          have hk' : (keysOf d).all isKnownKey = true := by
+            simpa [isKnownKey_eq] using hk
+          have := exactDesc_agrees d c hk' hnd hc
+          refine ⟨by simp [exactView, exactViewBy, hl, this], ?_⟩
+          simp [firstView, exactViewBy, hf, exactDescBy_first d hnd, this]
+      | null => simp at hk
+      | bool b => simp at hk
+      | num n => simp at hk
+      | str s => simp at hk
+      | arr xs => simp at hk
+
+/-! ### the unknown-field scan -/
+
+theorem mem_keys_of_lookupLast (k : String) (m : Members) (v : JVal)
+    (h : lookupLast k m = some v) : (keysOf m).contains k = true := by
+  cases hc : (keysOf m).contains k with
+  | true => rfl
+  | false => rw [lookupLast_none_of_not_mem k m hc] at h; cases h
+
+/-- with the checked assertion the scan cannot panic - for ANY document -/
+theorem scan_checked_ne_panic (p : JVal) : scanUnknown true p ≠ .panic := by
+  cases p with
+  | obj kvs => simp only [scanUnknown]; split <;> simp
+  | null => simp [scanUnknown]
+  | bool b => simp [scanUnknown]
+  | num n => simp [scanUnknown]
+  | str s => simp [scanUnknown]
+  | arr xs => simp [scanUnknown]
+
+/-- the defect repaired by 105e86f, in the model: with an unchecked assertion a payload spelled
+`TargetArtifact` reaches the panic -/
+theorem unchecked_assertion_panics :
+    (match scanUnknown false (.obj [("TargetArtifact", .obj [])]) with | .panic => true | _ => false) = true := by
+  decide
+
+def scanClean : Scan → Bool
+  | .panic => false
+  | .unknown ks => ks.isEmpty
+
+/-- the scan passes exactly when the top level has only the exactly spelled key and the target
+object only known keys -/
+theorem scan_checked_iff (p : JVal) :
+    scanClean (scanUnknown true p) = (topKeysExact p && descKeysKnown p) := by
+  cases p with
+  | obj kvs =>
+    simp only [scanUnknown, target_key_fact, topKeysExact, descKeysKnown]
+    cases hl : lookupLast "targetArtifact" kvs with
+    | none =>
+      simp only [if_true, scanClean, Bool.and_true]
+      cases kvs with
+      | nil => rfl
+      | cons q r =>
+        obtain ⟨k, v⟩ := q
+        simp only [keysOf, List.map_cons, List.isEmpty_cons, List.all_cons]
+        by_cases hk : k = "targetArtifact"
+        · subst hk
+          exfalso
+          have : lookupLast "targetArtifact" (("targetArtifact", v) :: r) ≠ none := by
+            cases hr : lookupLast "targetArtifact" r <;> simp [lookupLast, hr]
+          exact this hl
+        · have : (k == "targetArtifact") = false := by simpa using hk
+          simp [this]
+    | some v =>
+      have hmem := mem_keys_of_lookupLast _ _ _ hl
+      have hne : (keysOf kvs).isEmpty = false := by
+        cases kvs with
+        | nil => simp [keysOf] at hmem
+        | cons q r => simp [keysOf]
+      cases v with
+      | obj d =>
+        simp only [scanClean]
+        rw [Bool.eq_iff_iff]
+        simp [List.isEmpty_iff, List.filter_eq_nil_iff, and_comm, isKnownKey_eq]
+      | null => simp [scanClean, hne]
+      | bool b => simp [scanClean, hne]
+      | num n => simp [scanClean, hne]
+      | str s => simp [scanClean, hne]
+      | arr xs => simp [scanClean, hne]
+  | null => simp [scanUnknown, scanClean, topKeysExact, descKeysKnown]
+  | bool b => simp [scanUnknown, scanClean, topKeysExact, descKeysKnown]
+  | num n => simp [scanUnknown, scanClean, topKeysExact, descKeysKnown]
+  | str s => simp [scanUnknown, scanClean, topKeysExact, descKeysKnown]
+  | arr xs => simp [scanUnknown, scanClean, topKeysExact, descKeysKnown]
+
+/-! ### duplicate member names -/
+
+theorem dupInMembers_false (kvs : Members) (h : dupInMembers kvs = false) :
+    ∀ kv ∈ kvs, kv.2.dupDeep = false := by
+  induction kvs with
+  | nil => intro kv hkv; cases hkv
+  | cons q r ih =>
+    simp only [dupInMembers, Bool.or_eq_false_iff] at h
+    intro kv hkv
+    rcases List.mem_cons.1 hkv with rfl | hkv
+    · exact h.1
+    · exact ih h.2 kv hkv
+
+theorem mem_of_lookupLast (k : String) : ∀ (m : Members) (v : JVal),
+    lookupLast k m = some v → (k, v) ∈ m := by
+  intro m
+  induction m with
+  | nil => intro v h; simp [lookupLast] at h
+  | cons q r ih =>
+    intro v h
+    obtain ⟨k', v'⟩ := q
+    simp only [lookupLast] at h
+    cases hr : lookupLast k r with
+    | some w =>
+      simp only [hr, Option.some.injEq] at h
+      subst h
+      exact List.mem_cons_of_mem _ (ih w hr)
+    | none =>
+      simp only [hr] at h
+      by_cases hk : (k' == k) = true
+      · simp only [hk, if_true] at h
+        cases h
+        have : k' = k := by simpa using hk
+        subst this
+        exact List.mem_cons_self
+      · simp [hk] at h
+
+/-- no duplicate anywhere ⟹ none at the two levels the readers look at -/
+theorem hasDup_of_dupDeep (p : JVal) (h : p.dupDeep = false) : hasDup p = false := by
+  cases p with
+  | obj kvs =>
+    simp only [JVal.dupDeep, Bool.or_eq_false_iff, Bool.not_eq_false'] at h
+    obtain ⟨hn, hm⟩ := h
+    simp only [hasDup, Bool.or_eq_false_iff, Bool.not_eq_false']
+    refine ⟨by simpa [keysOf] using hn, ?_⟩
+    cases hl : lookupLast "targetArtifact" kvs with
+    | none => rfl
+    | some v =>
+      cases v with
+      | obj d =>
+        have := dupInMembers_false kvs hm _ (mem_of_lookupLast _ _ _ hl)
+        simp only [JVal.dupDeep, Bool.or_eq_false_iff, Bool.not_eq_false'] at this
+        simpa [keysOf] using this.1
+      | null => rfl
+      | bool b => rfl
+      | num n => rfl
+      | str s => rfl
+      | arr xs => rfl
+  | null => rfl
+  | bool b => rfl
+  | num n => rfl
+  | str s => rfl
+  | arr xs => rfl
+
+/-! ### the two paths, characterised -/
+
+/-- everything `generateSignatureEnvelope` checks -/
+def envChecks (i : Input) : Bool :=
+  i.echoOk && !i.garbage && i.envFmt == i.format && verifyOk i && i.ctypeOk &&
+  !i.payload.dupDeep &&
+  sees i.req (goDecodePayload i.payload) && topKeysExact i.payload && descKeysKnown i.payload
+
+theorem envelopePath_eq (i : Input) :
+    envelopePath i = if (i.pluginErr != .generate && envChecks i) then sigObs else errObs := by
+  unfold envelopePath envChecks
+  rw [assertion_checked]
+  by_cases h0 : i.pluginErr = .generate
+  · simp [h0]
+  by_cases h1 : i.echoOk = true
+  case neg => simp [h0, h1]
+  by_cases h2 : i.garbage = true
+  · simp [h0, h1, h2]
+  by_cases h3 : i.envFmt = i.format
+  case neg => simp [h0, h1, h2, h3]
+  by_cases h4 : verifyOk i = true
+  case neg => simp [h0, h1, h2, h3, h4]
+  by_cases h5 : i.ctypeOk = true
+  case neg => simp [h0, h1, h2, h3, h4, h5]
+  cases hg : goDecodePayload i.payload with
+  | none => simp [h0, h1, h2, h3, h4, h5, sees]
+  | some d =>
+    rw [duplicate_check_fact.1]
+    by_cases hdd : i.payload.dupDeep = true
+    · simp [h0, h1, h2, h3, h4, h5, hdd]
+    by_cases h6 : descValid i.req d = true
+    case neg => simp [h0, h1, h2, h3, h4, h5, hdd, h6, sees]
+    have hs := scan_checked_iff i.payload
+    have hp := scan_checked_ne_panic i.payload
+    cases hsc : scanUnknown true i.payload with
+    | panic => exact absurd hsc hp
+    | unknown ks =>
+      rw [hsc] at hs
+      simp only [scanClean] at hs
+      simp [h0, h1, h2, h3, h4, h5, hdd, h6, sees, hs, Bool.and_assoc]
+
+theorem spec_facts (k : KS) :
+    ∃ e h a, encodeKeySpec k.spec = some e ∧ hashFromKeySpec k.spec = some h ∧
+      sigAlgOf k.spec = some a := by
+  have ⟨h1, h2⟩ := encode_hash_total k
+  obtain ⟨e, he⟩ := Option.isSome_iff_exists.1 h1
+  obtain ⟨h, hh⟩ := Option.isSome_iff_exists.1 h2
+  obtain ⟨a, ha, _⟩ := sigAlg_roundtrip k
+  exact ⟨e, h, a, he, hh, ha⟩
+
+theorem rawPath_eq (i : Input) (k : KS) :
+    rawPath i k.spec =
+      if (i.pluginErr != .generate && i.gsKeyIdOk && verifyOk i && k == i.key) then sigObs else errObs := by
+  obtain ⟨e, h, a, he, hh, ha⟩ := spec_facts k
+  simp only [rawPath, he, hh, ha]
+  by_cases h0 : i.pluginErr = .generate
+  · simp [h0]
+  by_cases h1 : i.gsKeyIdOk = true
+  case neg => simp [h0, h1]
+  by_cases h4 : verifyOk i = true
+  case neg =>
+    have h4' : verifyOk i = false := by simpa using h4
+    simp only [h4']
+    cases hch : i.chain <;> simp [h0, h1, leafSpec, hch] <;> split <;> simp
+  have hchain : i.chain = .ok ∨ i.chain = .selfSigned ∨ i.chain = .otherKey := by
+    simp only [verifyOk, Bool.and_eq_true, Bool.or_eq_true, beq_iff_eq] at h4
+    rcases h4 with ⟨_, h | h⟩ | ⟨_, h⟩
+    · exact Or.inl h
+    · exact Or.inr (Or.inl h)
+    · exact Or.inr (Or.inr h)
+  have hleaf : leafSpec i = some i.key.spec := by
+    rcases hchain with hc | hc | hc <;> simp [leafSpec, hc]
+  have hng : (i.chain == Chain.garbage) = false := by
+    rcases hchain with hc | hc | hc <;> simp [hc]
+  simp only [hleaf, hng]
+  by_cases hk : k = i.key
+  · subst hk
+    simp [h0, h1, h4, ha]
+  · have : sigAlgOf i.key.spec ≠ some a := by
+      intro hEq
+      exact hk (sigAlgOf_injective k i.key (by rw [ha, hEq]))
+    simp [h0, h1, h4, hk, this]
+
+theorem getKeySpec_some (i : Input) (ks : Spec) (h : getKeySpec i = some ks) :
+    i.pluginErr ≠ .describeKey ∧ i.dkKeyIdOk = true ∧ decodeKeySpec i.dkKeySpec = some ks := by
+  unfold getKeySpec at h
+  by_cases h0 : i.pluginErr = .describeKey
+  · simp [h0] at h
+  by_cases h1 : i.dkKeyIdOk = true
+  case neg => simp [h0, h1] at h
+  simp [h0, h1] at h
+  exact ⟨h0, h1, h⟩
+
+/-- the model only ever answers `errObs` or `sigObs` -/
+theorem run_cases (i : Input) : run i = errObs ∨ run i = sigObs := by
+  have henv : envelopePath i = errObs ∨ envelopePath i = sigObs := by
+    rw [envelopePath_eq]; split <;> simp
+  have hraw : ∀ ks, getKeySpec i = some ks → (rawPath i ks = errObs ∨ rawPath i ks = sigObs) := by
+    intro ks hks
+    obtain ⟨k, rfl⟩ := decodeKeySpec_range _ _ (getKeySpec_some i ks hks).2.2
+    rw [rawPath_eq]; split <;> simp
+  unfold run
+  by_cases hm : i.pluginErr = .metadata
+  · simp [hm]
+  simp only [hm, beq_iff_eq, if_false]
+  cases i.api with
+  | sign =>
+    simp only
+    split
+    · cases hks : getKeySpec i with
+      | none => simp
+      | some ks => simpa using hraw ks hks
+    · split
+      · exact henv
+      · simp
+  | signBlob =>
+    simp only
+    cases hks : getKeySpec i with
+    | none => simp
+    | some ks =>
+      simp only
+      cases blobDigestAlg ks with
+      | none => simp
+      | some _ =>
+        simp only
+        split
+        · exact hraw ks hks
+        · split
+          · exact henv
+          · simp
+
+/-! ### property theorems -/
+
+theorem sig_ne_err : errObs.outcome ≠ .sig := by decide
+
+theorem raw_sig (i : Input) (ks : Spec) (hks : getKeySpec i = some ks) (hr : hasRaw i.cap = true)
+    (h : (rawPath i ks).outcome = .sig) : required i = true := by
+  obtain ⟨_, hid, hdec⟩ := getKeySpec_some i ks hks
+  obtain ⟨k, rfl⟩ := decodeKeySpec_range _ _ hdec
+  rw [rawPath_eq] at h
+  split at h
+  case isFalse => exact absurd h sig_ne_err
+  case isTrue hc =>
+    simp only [Bool.and_eq_true, beq_iff_eq] at hc
+    obtain ⟨⟨⟨_, hgs⟩, hv⟩, hk⟩ := hc
+    subst hk
+    simp [required, pathOf, hr, hid, hgs, hv, hdec]
+
+theorem env_sig (i : Input) (hr : hasRaw i.cap = false) (he : hasEnvelope i.cap = true)
+    (h : (envelopePath i).outcome = .sig) : required i = true ∧ envChecks i = true := by
+  rw [envelopePath_eq] at h
+  split at h
+  case isFalse => exact absurd h sig_ne_err
+  case isTrue hc =>
+    simp only [Bool.and_eq_true] at hc
+    refine ⟨?_, hc.2⟩
+    have hc2 := hc.2
+    simp only [envChecks, Bool.and_eq_true] at hc2
+    obtain ⟨⟨⟨⟨⟨⟨⟨⟨a1, a2⟩, a3⟩, a4⟩, a5⟩, _⟩, a6⟩, a7⟩, a8⟩ := hc2
+    simp [required, pathOf, hr, he, a1, a3, a4, a5, a6, a7, a8]
+    simpa using a2
+
+/-- a signature is returned only after every check the property demands -/
+theorem run_sig_required (i : Input) (h : (run i).outcome = .sig) :
+    required i = true ∧ (pathOf i = .envelope → envChecks i = true) := by
+  unfold run at h
+  by_cases hm : i.pluginErr = .metadata
+  · simp [hm] at h; exact absurd h sig_ne_err
+  simp only [hm, beq_iff_eq, if_false] at h
+  cases hapi : i.api with
+  | sign =>
+    simp only [hapi] at h
+    by_cases hr : hasRaw i.cap = true
+    · simp only [hr, if_true] at h
+      cases hks : getKeySpec i with
+      | none => simp [hks] at h; exact absurd h sig_ne_err
+      | some ks =>
+        simp only [hks] at h
+        exact ⟨raw_sig i ks hks hr h, by simp [pathOf, hr]⟩
+    · have hr' : hasRaw i.cap = false := by simpa using hr
+      simp only [hr', Bool.false_eq_true, if_false] at h
+      by_cases he : hasEnvelope i.cap = true
+      · simp only [he, if_true] at h
+        exact ⟨(env_sig i hr' he h).1, fun _ => (env_sig i hr' he h).2⟩
+      · simp [he] at h; exact absurd h sig_ne_err
+  | signBlob =>
+    simp only [hapi] at h
+    cases hks : getKeySpec i with
+    | none => simp [hks] at h; exact absurd h sig_ne_err
+    | some ks =>
+      simp only [hks] at h
+      cases hb : blobDigestAlg ks with
+      | none => simp [hb] at h; exact absurd h sig_ne_err
+      | some _ =>
+        simp only [hb] at h
+        by_cases hr : hasRaw i.cap = true
+        · simp only [hr, if_true] at h
+          exact ⟨raw_sig i ks hks hr h, by simp [pathOf, hr]⟩
+        · have hr' : hasRaw i.cap = false := by simpa using hr
+          simp only [hr', Bool.false_eq_true, if_false] at h
+          by_cases he : hasEnvelope i.cap = true
+          · simp only [he, if_true] at h
+            exact ⟨(env_sig i hr' he h).1, fun _ => (env_sig i hr' he h).2⟩
+          · simp [he] at h; exact absurd h sig_ne_err
+
+/-- **never panics**: whatever the plugin answers - in particular for ALL payload documents -
+the outcome is an error or a signature (uses the regenerated fact that the type assertion in
+`areUnknownAttributesAdded` is the checked form) -/
+theorem never_panics (i : Input) : (run i).outcome ≠ .panic := by
+  rcases run_cases i with h | h <;> rw [h] <;> decide
+
+/-- never a signature over something else: a returned signature is the checked envelope -/
+theorem returns_only_checked (i : Input) (h : (run i).outcome = .sig) :
+    (run i).payloadOk = true ∧ (run i).leafOk = true := by
+  rcases run_cases i with h' | h' <;> rw [h'] at h ⊢
+  · exact absurd h sig_ne_err
+  · exact ⟨rfl, rfl⟩
+
+/-- every exact-key reader (last-wins or first-wins) sees the requested descriptor -/
+theorem readers_see_requested (i : Input) (h : (run i).outcome = .sig) (hp : pathOf i = .envelope) :
+    sees i.req (exactView i.payload) = true ∧ sees i.req (firstView i.payload) = true := by
+  have hc := (run_sig_required i h).2 hp
+  simp only [envChecks, Bool.and_eq_true, Bool.not_eq_true'] at hc
+  obtain ⟨⟨⟨⟨_, hdd⟩, hsee⟩, ht⟩, hk⟩ := hc
+  have hd := hasDup_of_dupDeep _ hdd
+  cases hg : goDecodePayload i.payload with
+  | none => simp [hg, sees] at hsee
+  | some d =>
+    obtain ⟨h1, h2⟩ := views_agree i.payload d ht hk hd hg
+    rw [h1, h2, ← hg]
+    exact ⟨hsee, hsee⟩
+
+/-- a payload that repeats a member name anywhere is never signed off (F-C18b, repaired by
+95bb17e) -/
+theorem duplicates_refused (i : Input) (hp : pathOf i = .envelope) (h : i.payload.dupDeep = true) :
+    (run i).outcome ≠ .sig := by
+  intro hs
+  have hc := (run_sig_required i hs).2 hp
+  simp [envChecks, h] at hc
+
+/-- **C18, the whole property** for well-formed requests (distinct annotation keys, int64 size -
+what a Go `ocispec.Descriptor` can hold, and what the generator emits; `dupKeys` is the redundant
+flag the harness computes). -/
+theorem model_holds (i : Input) (hwf : reqWellFormed i.req = true)
+    (hdk : i.dupKeys = i.payload.dupDeep) : Holds i (run i) = true := by
+  unfold Holds clauses
+  simp only [Clauses.holds_cons, Clauses.holds_nil, Bool.and_true, Bool.and_eq_true]
+  refine ⟨by simp [hwf, hdk], ?_, ?_, ?_, ?_, ?_⟩
+  · have := never_panics i
+    simpa using this
+  · by_cases h : (run i).outcome = .sig
+    · simp [(run_sig_required i h).1]
+    · simp [h]
+  · by_cases h : (run i).outcome = .sig
+    · by_cases hp : pathOf i = .envelope
+      · have := readers_see_requested i h hp
+        simp [this.1, this.2]
+      · simp [hp]
+    · simp [h]
+  · by_cases h : (run i).outcome = .sig
+    · by_cases hp : pathOf i = .envelope
+      · by_cases hdd : i.payload.dupDeep = true
+        · exact absurd h (duplicates_refused i hp hdd)
+        · simp [hdd]
+      · simp [hp]
+    · simp [h]
+  · by_cases h : (run i).outcome = .sig
+    · have := returns_only_checked i h
+      simp [this.1, this.2]
+    · simp [h]
+
+/-! ### readable corollaries -/
+
+theorem descValid_iff (req : Desc) (d : GoDesc) :
+    descValid req d = true ↔
+      d.mediaType = req.mediaType ∧ d.digest = req.digest ∧ d.size = req.size ∧
+      ∀ kv ∈ req.annotations, d.annotations.lookup kv.1 = some kv.2 := by
+  simp [descValid, and_assoc]
+  constructor
+  · rintro ⟨a, b, c, e⟩; exact ⟨c, b, a, e⟩
+  · rintro ⟨a, b, c, e⟩; exact ⟨c, b, a, e⟩
+
+/-- **envelope path, soundness**: a signature comes back only if the plugin echoed the requested
+format and produced an envelope of that format, the envelope verifies under its own chain, it
+carries the Notary payload type, the struct-decoded target is the requested descriptor with
+every original annotation, the only top-level key is the exactly spelled `targetArtifact` and
+the target object has only known descriptor keys. -/
+theorem envelope_path_sound (i : Input) (h : (envelopePath i).outcome = .sig) :
+    i.echoOk = true ∧ i.garbage = false ∧ i.envFmt = i.format ∧ verifyOk i = true ∧ i.ctypeOk = true ∧
+    i.payload.dupDeep = false ∧
+    (∃ d, goDecodePayload i.payload = some d ∧ d.mediaType = i.req.mediaType ∧ d.digest = i.req.digest ∧
+        d.size = i.req.size ∧ ∀ kv ∈ i.req.annotations, d.annotations.lookup kv.1 = some kv.2) ∧
+    topKeysExact i.payload = true ∧ descKeysKnown i.payload = true := by
+  rw [envelopePath_eq] at h
+  split at h
+  case isFalse => exact absurd h sig_ne_err
+  case isTrue hc =>
+    simp only [envChecks, Bool.and_eq_true, Bool.not_eq_true', beq_iff_eq] at hc
+    obtain ⟨_, ⟨⟨⟨⟨⟨⟨⟨h1, h2⟩, h3⟩, h4⟩, h5⟩, hdd⟩, h6⟩, h7⟩, h8⟩ := hc
+    refine ⟨h1, h2, h3, h4, h5, hdd, ?_, h7, h8⟩
+    cases hg : goDecodePayload i.payload with
+    | none => simp [hg, sees] at h6
+    | some d =>
+      simp only [hg, sees] at h6
+      exact ⟨d, rfl, (descValid_iff _ _).1 h6⟩
+
+/-- … hence the exact-key readers (last-wins and first-wins) and the case-insensitive, merging
+Go decoder all read the same, requested, descriptor -/
+theorem envelope_path_sound_readers (i : Input) (h : (envelopePath i).outcome = .sig) :
+    ∃ d, goDecodePayload i.payload = some d ∧ exactView i.payload = some d ∧
+      firstView i.payload = some d ∧ descValid i.req d = true := by
+  obtain ⟨_, _, _, _, _, hdd, ⟨d, hg, hv⟩, ht, hk⟩ := envelope_path_sound i h
+  obtain ⟨h1, h2⟩ := views_agree i.payload d ht hk (hasDup_of_dupDeep _ hdd) hg
+  exact ⟨d, hg, h1, h2, (descValid_iff _ _).2 hv⟩
+
+/-- **envelope path, completeness**: the converse - these checks are all there is -/
+theorem envelope_path_complete (i : Input) (hp : i.pluginErr ≠ .generate)
+    (h1 : i.echoOk = true) (h2 : i.garbage = false) (h3 : i.envFmt = i.format)
+    (h4 : verifyOk i = true) (h5 : i.ctypeOk = true) (hdd : i.payload.dupDeep = false)
+    (h6 : ∃ d, goDecodePayload i.payload = some d ∧ descValid i.req d = true)
+    (h7 : topKeysExact i.payload = true) (h8 : descKeysKnown i.payload = true) :
+    envelopePath i = sigObs := by
+  obtain ⟨d, hg, hv⟩ := h6
+  rw [envelopePath_eq]
+  simp [envChecks, hp, h1, h2, h3, h4, h5, hdd, hg, sees, hv, h7, h8]
+
+/-- **raw path, soundness**: through a raw-signature plugin a signature comes back only if
+DescribeKey and GenerateSignature answered for the requested key id, the described key spec is
+the spec of the key that signed, and the signature was made with the key the chain's leaf
+certifies (the plugin's key under its chains, or consistently another key of the same spec). -/
+theorem raw_path_sound (i : Input) (hr : hasRaw i.cap = true) (h : (run i).outcome = .sig) :
+    i.dkKeyIdOk = true ∧ i.gsKeyIdOk = true ∧ decodeKeySpec i.dkKeySpec = some i.key.spec ∧
+    ((i.sigMode = .good ∧ (i.chain = .ok ∨ i.chain = .selfSigned)) ∨
+     (i.sigMode = .otherKey ∧ i.chain = .otherKey)) := by
+  have := (run_sig_required i h).1
+  simp only [required, pathOf, hr, if_true, Bool.and_eq_true, beq_iff_eq, verifyOk, Bool.or_eq_true] at this
+  obtain ⟨⟨⟨a, b⟩, c⟩, d⟩ := this
+  exact ⟨a, b, c, d⟩
+
+/-- `response.SigningAlgorithm` of GenerateSignature is never read: the algorithm is fixed by
+the described key spec and checked against the leaf certificate instead -/
+theorem response_algorithm_ignored (i : Input) (a : String) : run { i with gsAlg := a } = run i := rfl
+
+/-- the former witness of F-C18b: the descriptor split over two `targetArtifact` members (the Go
+decoder merges them into the requested descriptor, a last-wins reader sees no digest) -/
+def findingWitness : Input :=
+  { api := .sign, cap := .envelope, format := .jws, key := .ec256,
+    req := { mediaType := "m", digest := "sha256:00", size := 7, annotations := [] },
+    pluginErr := .noErr, dkKeyIdOk := true, dkKeySpec := "EC-256", echoOk := true, envFmt := .jws,
+    garbage := false, ctypeOk := true,
+    payload := .obj [("targetArtifact", .obj [("mediaType", .str "m"), ("digest", .str "sha256:00")]),
+                     ("targetArtifact", .obj [("size", .num 7)])],
+    gsKeyIdOk := true, gsAlg := "ECDSA-SHA-256", sigMode := .good, chain := .ok, dupKeys := true }
+
+theorem former_finding_refused :
+    run findingWitness = errObs ∧
+    sees findingWitness.req (goDecodePayload findingWitness.payload) = true ∧
+    sees findingWitness.req (exactView findingWitness.payload) = false ∧
+    Holds findingWitness sigObs = false := by decide
+
+/-! ### non-vacuity -/
+
+def benign : Input :=
+  { findingWitness with
+    payload := .obj [("targetArtifact", .obj [("mediaType", .str "m"), ("digest", .str "sha256:00"),
+                                               ("size", .num 7)])],
+    dupKeys := false }
+
+example : run benign = sigObs := by decide
+example : Holds benign (run benign) = true := by decide
+example : Holds benign panicObs = false := by decide
+/-- alternative spelling of the top-level key: refused -/
+example : run { benign with payload := .obj [("TargetArtifact", .obj [("mediaType", .str "m"),
+    ("digest", .str "sha256:00"), ("size", .num 7)])] } = errObs := by decide
+/-- an evil digest under a case variant placed after the exact key: the Go decoder merges it -/
+example : run { benign with payload := .obj [("targetArtifact", .obj [("mediaType", .str "m"),
+    ("digest", .str "sha256:00"), ("size", .num 7), ("Digest", .str "sha256:ff")])] } = errObs := by decide
+/-- a signature for a wrong digest would violate the property -/
+example : Holds { benign with payload := .obj [("targetArtifact", .obj [("mediaType", .str "m"),
+    ("digest", .str "sha256:ff"), ("size", .num 7)])] } sigObs = false := by decide
+/-- raw path: a key spec that is not the signing key's is refused -/
+example : run { benign with cap := .raw, dkKeySpec := "EC-384" } = errObs := by decide
+example : run { benign with cap := .raw } = sigObs := by decide
 
 end NotationModel.C18
